@@ -63,7 +63,7 @@ PROPS = {
     "C01": {
         "suites": [("bloom", [(r"^bf\.", ["ret", "bits"])]), ("expanding", [(r"^xb\.", ["ret", "subbits"])]), ("ondisk", [(r"^od\.", ["ret", "file", "bits"])])],
         "search": True,
-        "assumptions": ["hash strategies are arbitrary functions in the theorems; md5/sha256/custom strategies reach the model as supplied hash lists", "export/load and reopen steps of the property are carried by C05/C11 theorems plus the tie"],
+        "assumptions": ["hash strategies are arbitrary functions in the theorems; md5/sha256/custom strategies reach the model as supplied hash lists", "reload steps inside a history are theorems too (C01_history.lean) under explicit range hypotheses: fewer than 2^64 adds; for union inside a reloading history an estimator with values in [0, 2^64)"],
     },
     "C02": {
         "suites": [("cms", [(r"^cm\..*" + MINLIKE, ["ret"]), (r"^cm\.", ["bins", "total"])])],
@@ -79,7 +79,7 @@ PROPS = {
         "suites": [("qf", None)],
         "search": True,
         "assumptions": [
-            "C04_exact_set is for histories in which no call raised or reported `diverged` (the recursion budget of add_alt/resize/merge is a model artefact whose sufficiency is not proved; termination of remove, look-up, iteration and non-resizing add is proved)",
+            "C04_exact_set speaks about histories in which no call raised; that add_alt/resize/merge never report `diverged` with the driver's budget is proved separately (C04_termination.lean)",
             "hashes are < 2^32; the three metadata Bitarrays are modelled as List Bool (C20 is the refinement)",
         ],
     },
